@@ -1,0 +1,46 @@
+//go:build verif
+
+// Verification hooks (property C13): the remaining length-prefixed readers inside the
+// authentication sub-protocols — Kerberos request blobs, the three receiving steps of the token
+// exchange (error-state branches included), the CLAIMTOBE server message. Thin exported wrappers
+// around unexported functions, compiled only with `-tags verif`. Add-only.
+package security
+
+import (
+	"context"
+
+	"github.com/bbockelm/cedar/stream"
+)
+
+// VerifKerberosReadRequest runs Authenticator.kerberosReadRequest (code, length, data) on s.
+func VerifKerberosReadRequest(ctx context.Context, s *stream.Stream) ([]byte, error) {
+	a := &Authenticator{stream: s}
+	return a.kerberosReadRequest(ctx)
+}
+
+// VerifTokenReceiveStep2 runs the client's receiving step of the token exchange on s.
+func VerifTokenReceiveStep2(ctx context.Context, s *stream.Stream, clientID string, ra []byte) error {
+	a := &Authenticator{stream: s}
+	return a.receiveTokenStep2(ctx, &TokenAuthData{ClientID: clientID, RA: ra}, &SecurityNegotiation{IsClient: true})
+}
+
+// VerifTokenServerReceiveStep1 runs the server's first receiving step of the token exchange on s.
+func VerifTokenServerReceiveStep1(ctx context.Context, s *stream.Stream) error {
+	a := &Authenticator{stream: s}
+	return a.receiveServerTokenStep1(ctx, &TokenAuthData{}, &SecurityNegotiation{})
+}
+
+// VerifTokenServerReceiveStep3 runs the server's last receiving step of the token exchange on s.
+func VerifTokenServerReceiveStep3(ctx context.Context, s *stream.Stream, clientID string, rb []byte) error {
+	a := &Authenticator{stream: s}
+	return a.receiveServerTokenStep3(ctx, &TokenAuthData{ClientID: clientID, RB: rb, SharedKeyK: make([]byte, 32)}, &SecurityNegotiation{})
+}
+
+// VerifClaimToBeServer runs the server side of CLAIMTOBE (status, user name) on s.
+func VerifClaimToBeServer(ctx context.Context, s *stream.Stream) error {
+	a := &Authenticator{stream: s, config: &SecurityConfig{}}
+	return a.performClaimToBeAuthenticationServer(ctx, &SecurityNegotiation{ServerConfig: &SecurityConfig{}, ClientConfig: &SecurityConfig{}})
+}
+
+// VerifAuthLimits exposes the size limits of the sub-protocol readers.
+func VerifAuthLimits() (maxUser, maxDirPath int) { return MaxUsernameSize, MaxDirPathSize }
